@@ -32,13 +32,14 @@
 (*   branches coal (Coalesce), or, and, not, switch (children k1 v1 k2 v2 ...),            *)
 (*            mdict (Match-mode dict with one key/value spec pair, a: none)                *)
 (*   wrappers auto | fill | match (mode), spec (a: name; Spec(sub, scope={name: path}))    *)
+(*   lazy     iter (Iter(sub): a generator, target <<-5, g>>) | consume (the callable list)  *)
 EXTENDS Integers, Sequences, FiniteSets, TLC
 
 CONSTANT Mutant    \* "none": glom as repaired;  otherwise a named deviation of the mechanism
 
 N(k, a, c) == [k |-> k, a |-> a, c |-> c]
 
-GlomitKinds == {"new", "same", "fail", "smiss", "probe", "read", "sbind", "abind", "gbind", "gread", "pipe", "coal",
+GlomitKinds == {"new", "same", "fail", "smiss", "iter", "probe", "read", "sbind", "abind", "gbind", "gread", "pipe", "coal",
                 "or", "and", "not", "switch", "mdict", "auto", "fill", "match", "spec"}
 ModeOf(k) == CASE k = "auto" -> "AUTO" [] k = "fill" -> "FILL" [] k = "match" -> "MATCH"
 
@@ -72,8 +73,14 @@ WalkUp(frames, cur, e) ==
        IN WalkUp(fr2, p, e)
   ELSE frames
 Fail(st, f, e) ==
-  LET p == st.frames[f].par
-      fr1 == IF Mutant = "ownerrs"
+  LET p == st.frames[f].par IN
+  IF st.frames[p].nopy /\ st.frames[p].err = e /\ Mutant # "lazydup"
+  THEN \* the parent scope has left the Python stack and has already recorded this very exception: it was
+       \* raised by a lazily evaluated child of that scope (a generator consumed by this frame), whose
+       \* except block did the bookkeeping on the way up
+       Act([st EXCEPT !.frames[f].err = e], [a |-> "error", f |-> f, e |-> e])
+  ELSE
+  LET fr1 == IF Mutant = "ownerrs"
              THEN [st.frames EXCEPT ![f].cerrs = Append(@, f), ![f].err = e]   \* wrong map
              ELSE [st.frames EXCEPT ![p].cerrs = Append(@, f), ![f].err = e]
       fr2 == IF fr1[p].nopy THEN WalkUp(fr1, p, e) ELSE fr1
@@ -109,7 +116,8 @@ Log(st, rec) == [st EXCEPT !.log = Append(@, rec @@ [at |-> Len(st.acts)])]   \*
 
 RECURSIVE Run(_, _, _, _, _), RunChain(_, _, _, _, _, _, _), RunAll(_, _, _, _, _, _, _),
           RunCoal(_, _, _, _, _, _), RunOr(_, _, _, _, _, _), RunAnd(_, _, _, _, _, _, _),
-          RunSwitch(_, _, _, _, _, _), RunItems(_, _, _, _, _, _, _), RunFillDict(_, _, _, _, _, _)
+          RunSwitch(_, _, _, _, _, _), RunItems(_, _, _, _, _, _, _), RunFillDict(_, _, _, _, _, _),
+          RunGen(_, _, _, _)
 
 EffMode(st, f) == IF st.frames[f].minmode THEN "ARG" ELSE st.frames[f].mode
 
@@ -126,6 +134,16 @@ Run(st0, par, node, path, tgt) ==
                   ELSE Res(st3, "ok", IF node.k = "new" THEN <<n>> ELSE tgt, 0, 0)
           [] node.k \in {"fail", "smiss"} ->      \* a leaf that always raises (smiss: S.<missing name>)
                Res(NewErr(st2, f, 0), "err", tgt, f, st2.eid + 1)
+          [] node.k = "iter" ->
+               \* Iter(sub): returns a generator at once; sub is evaluated per item, as a child of THIS
+               \* frame, only when some later frame consumes the generator
+               Res([st2 EXCEPT !.gens = Append(@, [f |-> f, sub |-> node.c[1], path |-> Append(path, 1), tgt |-> tgt, done |-> FALSE])],
+                   "ok", <<-5, Len(st2.gens) + 1>>, 0, 0)
+          [] node.k = "consume" ->
+               \* the callable `list`: consumes a generator target item by item (plain targets: two items)
+               IF Head(tgt) = -5 /\ ~st2.gens[tgt[2]].done
+               THEN RunGen([st2 EXCEPT !.gens[tgt[2]].done = TRUE], f, st2.gens[tgt[2]], 1)
+               ELSE Res(st2, "ok", <<-1, f>>, 0, 0)
           [] node.k = "probe" ->
                Res(Log(st2, [p |-> path, what |-> "mode", v |-> st2.frames[f].mode]), "ok", tgt, 0, 0)
           [] node.k = "read" ->
@@ -209,6 +227,12 @@ RunItems(st, f, node, path, j, tgt, acc) ==
   ELSE LET r == Run(st, f, node.c[1], Append(path, 1), Append(tgt, j))
        IN IF r.out = "err" THEN r ELSE RunItems(r.st, f, node, path, j + 1, tgt, Append(acc, r.res))
 
+\* a generator made by frame g.f is drained by consumer frame c: the sub-spec runs as a child of g.f
+RunGen(st, c, g, j) ==
+  IF j > 2 THEN Res(st, "ok", <<-1, c>>, 0, 0)
+  ELSE LET r == Run(st, g.f, g.sub, g.path, Append(g.tgt, j))
+       IN IF r.out = "err" THEN Res(r.st, "err", r.res, r.org, r.e) ELSE RunGen(r.st, c, g, j + 1)
+
 \* Coalesce: alternatives in turn; a failing one is skipped; none left -> CoalesceError here
 RunCoal(st, f, node, path, i, tgt) ==
   IF i > Len(node.c) THEN Res(NewErr(st, f, 0), "err", tgt, f, st.eid + 1)
@@ -237,7 +261,7 @@ RunSwitch(st, f, node, path, i, tgt) ==
 \* one top-level glom(target, tree, scope=callerBinds) call
 Start(tree, plan, callerBinds) ==
   Run([frames |-> <<RootFrame(<<0>>, callerBinds)>>, acts |-> <<>>, leaf |-> 0, eid |-> 0, plan |-> plan,
-       log |-> <<>>, gl |-> <<>>, errs |-> <<>>], 1, tree, <<>>, <<0>>)
+       log |-> <<>>, gl |-> <<>>, errs |-> <<>>, gens |-> <<>>], 1, tree, <<>>, <<0>>)
 
 \* ---- static tree helpers ------------------------------------------------------------------------
 RECURSIVE NodeAt(_, _)
